@@ -30,6 +30,9 @@ pub enum WOp {
     Tuple(usize, Vec<Val>),
     /// `out!` / `outln!` expansions: kind selects a fixed statement, vals are its arguments
     Macro(usize, Vec<Val>),
+    /// nested containers: 0 = Vec<Vec<i64>>, 1 = Vec<(i32, String)>, 2 = (Vec<u8>, i32) with
+    /// groups = [vector, [int]], 3 = Vec<Vec<String>>
+    Nested(usize, Vec<Vec<Val>>),
     Flush,
 }
 
@@ -57,6 +60,7 @@ impl WOp {
             WOp::Vec(..) => "vec",
             WOp::Tuple(..) => "tuple",
             WOp::Macro(..) => "macro",
+            WOp::Nested(..) => "nested",
             WOp::Flush => "flush",
         }
     }
@@ -87,6 +91,16 @@ impl WOp {
                 }
                 out
             }
+            WOp::Nested(_, groups) => {
+                let mut out = Vec::new();
+                for (i, g) in groups.iter().enumerate() {
+                    if i > 0 {
+                        out.push(b' ');
+                    }
+                    out.extend_from_slice(&joined(g));
+                }
+                out
+            }
             WOp::Flush => vec![],
         }
     }
@@ -101,6 +115,7 @@ impl WOp {
             WOp::Vec(t, vs) => Json::obj().with("op", Json::s("vec")).with("ty", Json::s(&t.name())).with("v", vals(vs)),
             WOp::Tuple(k, vs) => Json::obj().with("op", Json::s("tuple")).with("k", Json::u(*k)).with("v", vals(vs)),
             WOp::Macro(k, vs) => Json::obj().with("op", Json::s("macro")).with("k", Json::u(*k)).with("v", vals(vs)),
+            WOp::Nested(k, groups) => Json::obj().with("op", Json::s("nested")).with("k", Json::u(*k)).with("groups", Json::Arr(groups.iter().map(|g| Json::Arr(g.iter().map(|v| v.to_json()).collect())).collect())),
             WOp::Flush => Json::obj().with("op", Json::s("flush")),
         }
     }
@@ -130,9 +145,30 @@ impl WOp {
                 }
                 WOp::Macro(k, v)
             }
+            "nested" => {
+                let k = j.num_of("k")? as usize;
+                let groups: Vec<Vec<Val>> = j.arr_of("groups")?.iter().map(|g| g.as_arr().and_then(|a| a.iter().map(Val::from_json).collect::<Option<Vec<_>>>())).collect::<Option<Vec<_>>>()?;
+                if !nested_shape_ok(k, &groups) {
+                    return None;
+                }
+                WOp::Nested(k, groups)
+            }
             "flush" => WOp::Flush,
             _ => return None,
         })
+    }
+}
+
+/// Does `groups` have the shape nested kind `k` needs (so that building the typed value cannot fail)?
+pub fn nested_shape_ok(k: usize, groups: &[Vec<Val>]) -> bool {
+    let is_int = |v: &Val, t: IntTy| matches!(v, Val::Int(iv) if iv.ty == t);
+    let is_str = |v: &Val| matches!(v, Val::Str(_));
+    match k {
+        0 => groups.iter().all(|g| g.iter().all(|v| is_int(v, IntTy::I64))),
+        1 => groups.iter().all(|g| g.len() == 2 && is_int(&g[0], IntTy::I32) && is_str(&g[1])),
+        2 => groups.len() == 2 && groups[0].iter().all(|v| is_int(v, IntTy::U8)) && groups[1].len() == 1 && is_int(&groups[1][0], IntTy::I32),
+        3 => groups.iter().all(|g| g.iter().all(is_str)),
+        _ => false,
     }
 }
 
@@ -469,6 +505,24 @@ pub fn exec(script: &[WOp], trace: &WTrace) -> WExecOut {
                             out!(a, b);
                         }
                     },
+                    WOp::Nested(k, groups) => match k {
+                        0 => {
+                            let v: Vec<Vec<i64>> = groups.iter().map(|g| g.iter().map(i64::build).collect()).collect();
+                            writer.write(&v)
+                        }
+                        1 => {
+                            let v: Vec<(i32, String)> = groups.iter().map(|g| (i32::build(&g[0]), String::build(&g[1]))).collect();
+                            writer.write(&v)
+                        }
+                        2 => {
+                            let v: (Vec<u8>, i32) = (groups[0].iter().map(u8::build).collect(), i32::build(&groups[1][0]));
+                            writer.write(&v)
+                        }
+                        _ => {
+                            let v: Vec<Vec<String>> = groups.iter().map(|g| g.iter().map(String::build).collect()).collect();
+                            writer.write(&v)
+                        }
+                    },
                     WOp::Flush => {
                         if pending == 0 {
                             probes.flush_on_empty += 1;
@@ -585,6 +639,7 @@ pub fn roundtrip_script(script: &[WOp]) -> Option<(Vec<ROp>, Vec<String>)> {
                 expect.push(canon_list(vals, '(', ')'));
                 glued = true;
             }
+            WOp::Nested(..) => return None,
             WOp::Macro(k, vals) => {
                 if !vals.iter().all(token_ok) {
                     return None;
